@@ -28,6 +28,9 @@ Proof.
   - exact (pres_susp s a s' HI H).
   - exact (pres_cbjs s a s' HI H).
   - exact (pres_noself s a s' HI H).
+  - exact (pres_ktarget s a s' HI H).
+  - exact (pres_creq s a s' HI H).
+  - exact (pres_acted s a s' HI H).
   - exact (pres_runs0 s a s' HI H).
   - exact (pres_runs1 s a s' HI H).
   - exact (pres_created s a s' HI H).
@@ -170,7 +173,8 @@ Qed.
     store of FREE_READY2 *)
 Lemma stamps_sound s j e s' : Reach s -> step s (j, e) = Some s' -> forall k,
   (t_ret (gh (gt s' k)) <> t_ret (gh (gt s k)) ->
-     k = j /\ (e = ECall (Return (result (gt s' k))) \/ e = ECall (Exit (result (gt s' k)))) /\
+     k = j /\ (e = ECall (Return (result (gt s' k))) \/ e = ECall (Exit (result (gt s' k))) \/
+               (e = ETick /\ main (gt s k) = KTest /\ acted (gh (gt s' k)) = true /\ result (gt s' k) = CANCELED)) /\
      t_ret (gh (gt s' k)) = clock s /\ retv (gh (gt s' k)) = Some (result (gt s' k))) /\
   (t_ready2 (gh (gt s' k)) <> t_ready2 (gh (gt s k)) ->
      k = j /\ e = ECbTick /\ cb (gt s j) = CbReady2 /\ t_ready2 (gh (gt s' k)) = clock s /\
@@ -221,7 +225,7 @@ Definition with_settings (st : settings) (creator : nat) (th : thread) : thread 
   let g := gh th in
   set_gh (set_main (set_detached th (s_det st)) (Created (s_cf st)))
     (mkGhost (runs g) (garg g) (got g) (retv g) (if s_det st then Some creator else None) (s_det st) (reaped g)
-             (desc_alloc g) (desc_freed g) (stack_alloc g) (stack_freed g) (s_stack st) (t_ret g) (t_ready2 g)).
+             (desc_alloc g) (desc_freed g) (stack_alloc g) (stack_freed g) (s_stack st) (t_ret g) (t_ready2 g) (creq g) (acted g)).
 
 (** creation through an attribute object whose fields are all defined (in particular one prepared
     with the public functions), with or without the NULL id pointer: never undefined behaviour, and the
@@ -699,4 +703,66 @@ Lemma reaped_once_sched n sched t :
   stack_freed (gh (gt (run step sched (init_state n)) t)) <= 1.
 Proof.
   destruct (reaped_once _ t (run_reach n sched)) as (A & B & C & _). rewrite B. auto.
+Qed.
+
+(* ------------------------------------------------------------------------------------------ *)
+(** * Cancellation (C01_cancel_only_own_incarnation) *)
+
+(** a thread acts on a cancellation only if a myth_cancel naming ITS incarnation stored its request after
+    the incarnation was created: creation resets both flags, and the request flag of an incarnation is
+    written only by the store step of a cancel whose target is that incarnation *)
+Lemma cancel_only_own_incarnation s t : Reach s ->
+  (acted (gh (gt s t)) = true -> creq (gh (gt s t)) = true) /\
+  (cancelled (gt s t) = true -> creq (gh (gt s t)) = true) /\
+  (main (gt s t) = NoThread ->
+     creq (gh (gt s t)) = false /\ acted (gh (gt s t)) = false /\ cancelled (gt s t) = false).
+Proof.
+  intros HR. pose proof (Inv_reach s HR) as HI.
+  split; [exact (i_acted _ HI t)|]. split; [exact (i_creq _ HI t)|].
+  intros Hm. rewrite (i_fresh _ HI t Hm). auto.
+Qed.
+
+(** creation resets the cancellation state of the position it uses *)
+Lemma create_resets_cancel s j c a nullid argv s' : Reach s ->
+  step s (j, ECall (Create c a nullid argv)) = Some s' -> crashed s' = false ->
+  cancelled (gt s' c) = false /\ cancel_enabled (gt s' c) = true /\
+  creq (gh (gt s' c)) = false /\ acted (gh (gt s' c)) = false /\ main (gt s c) = NoThread.
+Proof.
+  intros HR H. pose proof (Inv_reach s HR) as HI. step_inv H.
+  all: try (intros Hc; cbn in Hc; discriminate Hc).
+  all: intros _; crunchT HI ltac:(idtac).
+Qed.
+
+(** the request flag of an incarnation is written only by the store step of a cancel naming it; a thread
+    terminates itself only at its own testcancel, with cancellation enabled and a request pending *)
+Lemma cancel_steps s j e s' : Reach s -> step s (j, e) = Some s' -> forall t,
+  (creq (gh (gt s' t)) <> creq (gh (gt s t)) ->
+     main (gt s t) <> NoThread /\ e = ETick /\ main (gt s j) = KCancel t) /\
+  (acted (gh (gt s' t)) <> acted (gh (gt s t)) ->
+     main (gt s t) <> NoThread /\ t = j /\ e = ETick /\ main (gt s t) = KTest /\
+     cancelled (gt s t) = true /\ cancel_enabled (gt s t) = true /\ creq (gh (gt s t)) = true /\
+     result (gt s' t) = CANCELED /\ retv (gh (gt s' t)) = Some CANCELED).
+Proof.
+  intros HR H. pose proof (Inv_reach s HR) as HI. intros t. step_inv H.
+  all: crunchT HI ltac:(pose proof (i_ktarget _ HI j t); pose proof (i_fresh _ HI t); pose proof (i_creq _ HI t)).
+Qed.
+
+(** a thread that acted on a cancellation is in (or through) its exit path with CANCELED as value; hence a join on
+    it delivers CANCELED, and - by [stamps_sound] - the value of a thread that did not act was written by its
+    own Return / Exit call *)
+Lemma acted_retv s : Reach s -> forall t, acted (gh (gt s t)) = true ->
+  retv (gh (gt s t)) = Some CANCELED /\ finishing_pc (main (gt s t)) = true.
+Proof.
+  induction 1 as [s0 [n ->]|s0 a s1 HR0 IH Hst]; intros t.
+  - rewrite gt_init. destruct (t =? 0); cbn; discriminate.
+  - pose proof (Inv_reach s0 HR0) as HI0. specialize (IH t). destruct a as [j e]. step_inv Hst.
+    all: crunchT HI0 ltac:(pose proof (i_fresh _ HI0 t); pose proof (i_ktarget _ HI0 j t)).
+Qed.
+
+Lemma join_value_cancelled s j t v tm : Reach s -> In (j, t, v, tm) (joins s) ->
+  acted (gh (gt s t)) = true -> v = CANCELED /\ creq (gh (gt s t)) = true.
+Proof.
+  intros HR Hin Ha. pose proof (Inv_reach s HR) as HI.
+  destruct (i_joins _ HI j t v tm Hin) as (_ & Rv & _).
+  destruct (acted_retv s HR t Ha) as [R _]. split; [congruence|exact (i_acted _ HI t Ha)].
 Qed.
